@@ -313,7 +313,7 @@ class BPWorld(World):
     NAME = "bp"
     LEVEL = "fault_enumeration"
     SIM_TIME_UNIT = "BP scheduling quanta (iterate() calls)"
-    RUNS = {"quick": 8000, "thorough": 120000}
+    RUNS = {"quick": 16000, "thorough": 240000}
     WALL_CAP = {"quick": 900, "thorough": 3300}
     RULE = (
         "one run = a seeded random forest (2-8 tensors or site groups, bonds 1-3, "
